@@ -679,7 +679,7 @@ class FeatureIntervalCollection(AbstractFeatureIntervalCollection):
 
     def export_qualifiers(self) -> Dict[Hashable, Set[str]]:
         """Exports qualifiers for GFF3/GenBank export"""
-        qualifiers = self.qualifiers.copy()
+        qualifiers = {key: set(vals) for key, vals in self.qualifiers.items()}
         for key, val in [
             [BioCantorQualifiers.FEATURE_COLLECTION_ID.value, self.feature_collection_id],
             [BioCantorQualifiers.FEATURE_COLLECTION_NAME.value, self.feature_collection_name],
